@@ -174,6 +174,11 @@ func genScript(r *hx.Rng, marker int, py bool) string {
 		// marker not on the first line
 		lines[0], lines[len(lines)-1] = lines[len(lines)-1], lines[0]
 	}
+	if !py && r.Chance(1, 8) {
+		// a script that BEGINS with a placeholder and ENDS with closing braces (a Go template
+		// argument): it is a script all the same, not "one placeholder"
+		return "${{ matrix.docker }} inspect " + m + " --format {{.Id}}"
+	}
 	return strings.Join(lines, "\n")
 }
 
@@ -297,7 +302,7 @@ func genBehaviour(r *hx.Rng, role string, failPct int, maxLat int) behaviour {
 	b := behaviour{Lat: r.Intn(maxLat + 1)}
 	c := r.Intn(100)
 	if c < failPct {
-		b.Beh = r.Pick([]string{"crash", "signal", "empty", "garbage", "unterminated", "trailing"})
+		b.Beh = r.Pick([]string{"crash", "signal", "empty", "empty0", "garbage", "unterminated", "trailing"})
 		if (b.Beh == "garbage" || b.Beh == "trailing") && r.Chance(1, 2) {
 			b.Code = 1
 		}
@@ -952,6 +957,8 @@ func execRun(e *env, idx int, rs *runSpec) *runResult {
 							strict = true
 						case b.Beh == "signal", b.Beh == "empty":
 							strict = true
+						case b.Beh == "empty0":
+							strict = role == "sc" // status 0 and no output: not JSON for shellcheck, no issue for pyflakes
 						case b.Beh == "crash":
 							strict = role == "sc" // stdout empty, status 2; for pyflakes the traceback is output
 						case b.Beh == "garbage", b.Beh == "trailing":
